@@ -255,3 +255,263 @@ Proof.
   - destruct (flags s i) as [t|] eqn:E; simpl; try discriminate. intros _. exists t. now apply I1.
   - intros [t Ho]. apply I1 in Ho. now rewrite Ho.
 Qed.
+
+(* ------------------------------------------------------------------------------------------ *)
+(* pool: the occupancy counter *)
+Local Open Scope Z_scope.
+
+Fixpoint sumf (f : nat -> Z) (n : nat) : Z :=
+  match n with O => 0 | S k => sumf f k + f k end.
+
+Lemma sumf_ext : forall f g n, (forall i, (i < n)%nat -> f i = g i) -> sumf f n = sumf g n.
+Proof.
+  induction n; simpl; intros; auto. rewrite IHn, H; auto.
+Qed.
+Lemma sumf_upd : forall f g n k, (k < n)%nat -> (forall i, i <> k -> g i = f i) -> sumf g n = sumf f n - f k + g k.
+Proof.
+  induction n; simpl; intros k Hk He. lia.
+  destruct (Nat.eq_dec k n) as [->|Hn].
+  - rewrite (sumf_ext g f n). lia. intros. apply He. lia.
+  - rewrite (IHn k), (He n); auto; lia.
+Qed.
+Lemma sumf_zero : forall f n, (forall i, (i < n)%nat -> f i = 0) -> sumf f n = 0.
+Proof. induction n; simpl; intros; auto. rewrite IHn, H; auto. Qed.
+Lemma sumf_bounds : forall f g n, (forall i, (i < n)%nat -> 0 <= f i <= g i) -> 0 <= sumf f n <= sumf g n.
+Proof.
+  induction n; simpl; intros. lia. specialize (IHn (fun i Hi => H i (Nat.lt_lt_succ_r _ _ Hi))).
+  specialize (H n (Nat.lt_succ_diag_r n)). lia.
+Qed.
+
+Definition b2z (b : bool) : Z := if b then 1 else 0.
+Definition WZ : Z := Z.of_N WORD.
+
+Definition contrib (p : pc) : Z :=
+  match p with G_incTaken _ => -1 | F_dec _ => 1 | _ => 0 end.
+Definition ownc (ts : tstate) : Z :=
+  Z.of_nat (length (held ts)) + b2z (is_some (pc_slot (tpc ts))).
+Definition nset (cfg : config) (s : sys) : Z := sumf (fun i => b2z (is_some (flags s i))) (psize cfg).
+
+Record occ_inv (cfg : config) (s : sys) : Prop := mkOccInv {
+  oi_taken : Z.of_N (taken s) = (nset cfg s + sumf (fun t => contrib (tpc (thr s t))) (nthr cfg)) mod WZ;
+  oi_nset : nset cfg s = sumf (fun t => ownc (thr s t)) (nthr cfg);
+  oi_range : forall i, flags s i <> None -> (i < psize cfg)%nat;
+  oi_cas : forall t i, tpc (thr s t) = G_cas i -> (i < psize cfg)%nat }.
+
+Lemma winc_Z : forall v, Z.of_N (winc v) = (Z.of_N v + 1) mod WZ.
+Proof. intros. unfold winc, WZ. rewrite N2Z.inj_mod, N2Z.inj_add. reflexivity. Qed.
+Lemma wdec_Z : forall v, Z.of_N (wdec v) = (Z.of_N v - 1) mod WZ.
+Proof.
+  intros. unfold wdec, WZ. rewrite N2Z.inj_mod, N2Z.inj_add, N2Z.inj_sub by (unfold WORD; lia).
+  change (Z.of_N 1) with 1. replace (Z.of_N v + (Z.of_N WORD - 1)) with (Z.of_N v - 1 + 1 * Z.of_N WORD) by lia.
+  apply Z_mod_plus_full.
+Qed.
+
+Lemma occ_frame : forall cfg s s' t0,
+  occ_inv cfg s ->
+  flags s' = flags s -> taken s' = taken s ->
+  (forall t, t <> t0 -> thr s' t = thr s t) ->
+  contrib (tpc (thr s' t0)) = contrib (tpc (thr s t0)) ->
+  ownc (thr s' t0) = ownc (thr s t0) ->
+  (forall i, tpc (thr s' t0) = G_cas i -> (i < psize cfg)%nat) ->
+  occ_inv cfg s'.
+Proof.
+  intros cfg s s' t0 [O1 O2 O3 O4] Hf Ht Ho Hc Hw Hg.
+  assert (E : forall t, thr s' t = thr s t \/ t = t0).
+  { intros t. destruct (Nat.eq_dec t t0); auto. }
+  assert (N : nset cfg s' = nset cfg s) by (unfold nset; now rewrite Hf).
+  constructor.
+  - rewrite Ht, N, O1. f_equal. f_equal. apply sumf_ext. intros t _. destruct (E t) as [->| ->]; auto.
+  - rewrite N, O2. apply sumf_ext. intros t _. destruct (E t) as [->| ->]; auto.
+  - rewrite Hf. auto.
+  - intros t i. destruct (E t) as [->| ->]; auto. apply O4.
+Qed.
+
+Lemma occ_inv_init : forall cfg, occ_inv cfg (init cfg).
+Proof.
+  intros. constructor; simpl.
+  - unfold nset. simpl. rewrite !sumf_zero; auto.
+  - unfold nset. simpl. rewrite !sumf_zero; auto.
+  - congruence.
+  - discriminate.
+Qed.
+
+Lemma occ_step : forall cfg s s' t0 a dn,
+  occ_inv cfg s -> (t0 < nthr cfg)%nat ->
+  (forall t, t <> t0 -> thr s' t = thr s t) ->
+  nset cfg s' = nset cfg s + dn ->
+  ownc (thr s' t0) = ownc (thr s t0) + dn ->
+  (taken s' = taken s /\ a = 0 \/ taken s' = winc (taken s) /\ a = 1 \/ taken s' = wdec (taken s) /\ a = -1) ->
+  contrib (tpc (thr s' t0)) = contrib (tpc (thr s t0)) + a - dn ->
+  (forall i, flags s' i <> None -> (i < psize cfg)%nat) ->
+  (forall i, tpc (thr s' t0) = G_cas i -> (i < psize cfg)%nat) ->
+  occ_inv cfg s'.
+Proof.
+  intros cfg s s' t0 a dn [O1 O2 O3 O4] Hlt Ho Hn Hw Ht Hc Hr Hg.
+  assert (S1 : forall f : tstate -> Z, sumf (fun t => f (thr s' t)) (nthr cfg) = sumf (fun t => f (thr s t)) (nthr cfg) - f (thr s t0) + f (thr s' t0)).
+  { intros f. apply (sumf_upd (fun t => f (thr s t)) (fun t => f (thr s' t))); auto. intros i Hi. now rewrite Ho. }
+  assert (T : Z.of_N (taken s') = (Z.of_N (taken s) + a) mod WZ).
+  { destruct Ht as [[-> ->]|[[-> ->]|[-> ->]]].
+    - rewrite Z.add_0_r, O1. now rewrite Z.mod_mod by (unfold WZ, WORD; simpl; lia).
+    - apply winc_Z.
+    - apply wdec_Z. }
+  constructor.
+  - rewrite T, O1, Zplus_mod_idemp_l. f_equal.
+    rewrite (S1 (fun ts => contrib (tpc ts))), Hn, Hc. lia.
+  - rewrite Hn, O2, (S1 ownc), Hw. lia.
+  - auto.
+  - intros t i. destruct (Nat.eq_dec t t0) as [->|Hne]; auto. rewrite Ho; auto. apply O4.
+Qed.
+
+Lemma nset_upd : forall cfg s s' i v, (i < psize cfg)%nat -> flags s' = upd (flags s) i v ->
+  nset cfg s' = nset cfg s - b2z (is_some (flags s i)) + b2z (is_some v).
+Proof.
+  intros cfg s s' i v Hi Hf. unfold nset. rewrite Hf.
+  rewrite (sumf_upd (fun j => b2z (is_some (flags s j))) (fun j => b2z (is_some (upd (flags s) i v j))) (psize cfg) i); auto.
+  - now rewrite upd_same.
+  - intros j Hj. now rewrite upd_other.
+Qed.
+
+Ltac occ_frame_tac t :=
+  eapply occ_frame with (t0 := t); [eassumption | reflexivity | reflexivity
+   | intros; cbn; rewrite ?upd_other by assumption; reflexivity
+   | cbn; rewrite ?upd_same; cbn; rewrite ?upd_same; cbn;
+     repeat match goal with H : tpc _ = _ |- _ => rewrite H end; reflexivity
+   | unfold ownc; cbn; rewrite ?upd_same; cbn; rewrite ?upd_same; cbn;
+     repeat match goal with H : tpc _ = _ |- _ => rewrite H end; reflexivity
+   | cbn; rewrite ?upd_same; cbn; rewrite ?upd_same; cbn; intros; discriminate ].
+
+Lemma occ_inv_exec : forall cfg s t c, (0 < psize cfg)%nat -> pool_inv s -> occ_inv cfg s -> wf_choice s t c = true ->
+  occ_inv cfg (fst (exec cfg s t c)).
+Proof.
+  intros cfg s t c Hps P I W.
+  exec_leaves; try assumption; try (occ_frame_tac t; fail).
+  all: assert (Ht : (t < nthr cfg)%nat) by (apply negb_false_iff in Heqb; now apply Nat.ltb_lt in Heqb).
+  - (* G_fetchCur *)
+    eapply occ_frame with (t0 := t); [eassumption | reflexivity | reflexivity
+      | intros; cbn; rewrite ?upd_other by assumption; reflexivity
+      | cbn; rewrite ?upd_same; cbn; rewrite Heqp; reflexivity
+      | unfold ownc; cbn; rewrite ?upd_same; cbn; rewrite Heqp; reflexivity | ].
+    cbn. rewrite upd_same. cbn. intros j Hj. injection Hj as <-.
+    assert (cursor s mod N.of_nat (psize cfg) < N.of_nat (psize cfg))%N by (apply N.mod_lt; lia).
+    lia.
+  - (* G_cas succeeds *)
+    assert (Hi : (i < psize cfg)%nat) by (eapply oi_cas; eauto).
+    eapply occ_step with (t0 := t) (a := 0) (dn := 1); [eassumption | assumption
+      | intros; cbn; rewrite ?upd_other by assumption; reflexivity | | | left; split; reflexivity | | | ].
+    + rewrite (nset_upd cfg s _ i (Some t)); auto. rewrite Heqo. simpl. lia.
+    + unfold ownc. cbn. rewrite upd_same. cbn. rewrite Heqp. cbn. lia.
+    + cbn. rewrite upd_same. cbn. rewrite Heqp. reflexivity.
+    + cbn. intros j. destruct (Nat.eq_dec j i) as [->|Hj]; auto. rewrite upd_other by auto. apply (oi_range _ _ I).
+    + cbn. rewrite upd_same. cbn. discriminate.
+  - (* G_incTaken *)
+    eapply occ_step with (t0 := t) (a := 1) (dn := 0); [eassumption | assumption
+      | intros; cbn; rewrite ?upd_other by assumption; reflexivity | | | right; left; split; reflexivity | | | ].
+    + unfold nset. cbn. lia.
+    + unfold ownc. cbn. rewrite upd_same. cbn. rewrite Heqp. cbn. lia.
+    + cbn. rewrite upd_same. cbn. rewrite Heqp. reflexivity.
+    + cbn. apply (oi_range _ _ I).
+    + cbn. rewrite upd_same. cbn. discriminate.
+  - (* G_totInc *)
+    eapply occ_step with (t0 := t) (a := 0) (dn := 0); [eassumption | assumption
+      | intros; cbn; rewrite ?upd_other by assumption; reflexivity | | | left; split; reflexivity | | | ].
+    + unfold nset. cbn. lia.
+    + unfold ownc. cbn [finish set_total set_thr thr]. rewrite upd_same. cbn [held tpc]. rewrite Heqp. cbn [pc_slot is_some b2z length]. lia.
+    + cbn. rewrite upd_same. cbn. rewrite Heqp. reflexivity.
+    + cbn. apply (oi_range _ _ I).
+    + cbn. rewrite upd_same. cbn. discriminate.
+  - (* F_cas *)
+    assert (Hin : In i (held (thr s t))) by (apply (pi_free _ P); auto).
+    assert (Hfl : flags s i = Some t) by (apply (pi_flag _ P); now left).
+    assert (Hi : (i < psize cfg)%nat) by (apply (oi_range _ _ I); congruence).
+    eapply occ_step with (t0 := t) (a := 0) (dn := -1); [eassumption | assumption
+      | intros; cbn; rewrite ?upd_other by assumption; reflexivity | | | left; split; reflexivity | | | ].
+    + rewrite (nset_upd cfg s _ i None); auto. rewrite Hfl. simpl. lia.
+    + unfold ownc. cbn [set_flags set_thr thr]. rewrite upd_same. cbn [held tpc]. rewrite Heqp. cbn [pc_slot is_some b2z].
+      rewrite <- (remove1_length i (held (thr s t))) by auto. lia.
+    + cbn. rewrite upd_same. cbn. rewrite Heqp. reflexivity.
+    + cbn. intros j. destruct (Nat.eq_dec j i) as [->|Hj]. rewrite upd_same. congruence. rewrite upd_other by auto. apply (oi_range _ _ I).
+    + cbn. rewrite upd_same. cbn. discriminate.
+  - (* F_dec *)
+    eapply occ_step with (t0 := t) (a := -1) (dn := 0); [eassumption | assumption
+      | intros; cbn; rewrite ?upd_other by assumption; reflexivity | | | right; right; split; reflexivity | | | ].
+    + unfold nset. cbn. lia.
+    + unfold ownc. cbn. rewrite upd_same. cbn. rewrite Heqp. cbn. lia.
+    + cbn. rewrite upd_same. cbn. rewrite Heqp. reflexivity.
+    + cbn. apply (oi_range _ _ I).
+    + cbn. rewrite upd_same. cbn. discriminate.
+Qed.
+
+Lemma occ_inv_hist : forall cfg s h, occ_inv cfg s -> occ_inv cfg (set_hist s h).
+Proof. intros cfg s h [O1 O2 O3 O4]. constructor; auto. Qed.
+
+Lemma occ_inv_reach : forall cfg s, (0 < psize cfg)%nat -> reach cfg s -> occ_inv cfg s.
+Proof.
+  intros cfg s Hp. apply reach_ind_exec.
+  - apply occ_inv_init.
+  - apply occ_inv_hist.
+  - intros. apply occ_inv_exec; auto. eapply pool_inv_reach; eauto.
+Qed.
+
+Lemma filter_count_sumf : forall (f : nat -> bool) n,
+  Z.of_nat (length (filter f (seq 0 n))) = sumf (fun i => b2z (f i)) n.
+Proof.
+  induction n. reflexivity.
+  rewrite seq_S, filter_app, app_length, Nat2Z.inj_add, IHn. simpl. destruct (f n); reflexivity.
+Qed.
+Lemma fold_count_sumf : forall (g : nat -> nat) n,
+  Z.of_nat (fold_right (fun t a => (g t + a)%nat) 0%nat (seq 0 n)) = sumf (fun t => Z.of_nat (g t)) n.
+Proof.
+  intros g n.
+  assert (G : forall l b, fold_right (fun t a => (g t + a)%nat) b l = (fold_right (fun t a => (g t + a)%nat) 0%nat l + b)%nat).
+  { induction l; simpl; intros; auto. rewrite IHl. lia. }
+  induction n. reflexivity.
+  rewrite seq_S, fold_right_app, G. simpl. rewrite Nat2Z.inj_add, IHn. lia.
+Qed.
+
+Lemma count_flags_nset : forall cfg s, Z.of_nat (count_flags cfg s) = nset cfg s.
+Proof. intros. unfold count_flags, nset. apply filter_count_sumf. Qed.
+Lemma count_held_sumf : forall cfg s, Z.of_nat (count_held cfg s) = sumf (fun t => Z.of_nat (length (held (thr s t)))) (nthr cfg).
+Proof. intros. unfold count_held. apply (fold_count_sumf (fun t => length (held (thr s t)))). Qed.
+
+Lemma nset_le_psize : forall cfg s, 0 <= nset cfg s <= Z.of_nat (psize cfg).
+Proof.
+  intros. unfold nset. generalize (psize cfg). induction n; simpl. lia.
+  destruct (is_some (flags s n)); simpl; lia.
+Qed.
+
+(* occupancy counter = slots held = flags set, whenever no operation is in flight *)
+Lemma occupancy_exact_when_quiescent : forall cfg s,
+  (0 < psize cfg)%nat -> (N.of_nat (psize cfg) < WORD)%N -> reach cfg s -> quiescent cfg s ->
+  N.to_nat (taken s) = count_held cfg s /\ count_held cfg s = count_flags cfg s.
+Proof.
+  intros cfg s Hp Hw Hr Hq. destruct (occ_inv_reach cfg s Hp Hr) as [O1 O2 _ _].
+  assert (C0 : sumf (fun t => contrib (tpc (thr s t))) (nthr cfg) = 0).
+  { apply sumf_zero. intros t Ht. now rewrite (Hq t Ht). }
+  assert (H1 : nset cfg s = Z.of_nat (count_held cfg s)).
+  { rewrite O2, count_held_sumf. apply sumf_ext. intros t Ht. unfold ownc. rewrite (Hq t Ht). simpl. lia. }
+  rewrite C0, Z.add_0_r in O1.
+  pose proof (nset_le_psize cfg s) as B.
+  rewrite Z.mod_small in O1 by (unfold WZ; lia).
+  split.
+  - apply Nat2Z.inj. rewrite <- H1, <- O1. now rewrite N_nat_Z.
+  - apply Nat2Z.inj. now rewrite <- H1, count_flags_nset.
+Qed.
+
+(* with operations in flight the counter is off by at most their number (and never too low) *)
+Lemma occupancy_inflight_bound : forall cfg s,
+  (0 < psize cfg)%nat -> reach cfg s ->
+  exists d, 0 <= d <= Z.of_nat (inflight cfg s) /\ Z.of_N (taken s) = (Z.of_nat (count_held cfg s) + d) mod WZ.
+Proof.
+  intros cfg s Hp Hr. destruct (occ_inv_reach cfg s Hp Hr) as [O1 O2 _ _].
+  set (f := fun t => b2z (is_some (pc_slot (tpc (thr s t)))) + contrib (tpc (thr s t))).
+  exists (sumf f (nthr cfg)). split.
+  - unfold inflight. rewrite filter_count_sumf. apply sumf_bounds. intros t _. unfold f.
+    destruct (tpc (thr s t)); simpl; lia.
+  - rewrite O1, O2, count_held_sumf. f_equal.
+    assert (G : forall n, sumf (fun t => ownc (thr s t)) n + sumf (fun t => contrib (tpc (thr s t))) n
+                = sumf (fun t => Z.of_nat (length (held (thr s t)))) n + sumf f n).
+    { induction n; simpl. reflexivity. unfold f at 2, ownc at 2. lia. }
+    apply G.
+Qed.
+
+Local Close Scope Z_scope.
